@@ -197,6 +197,10 @@ var c19Recheck func() bool
 // or object replaced by harmless names and reports whether the leak is gone.
 var c19RecheckKeys func() bool
 
+// c19RecheckIter, when set, re-runs the program with every reference to an
+// iteration variable re-marked and reports whether the leak is gone.
+var c19RecheckIter func() bool
+
 // c19Bound is set by the caller to the iteration variable names of the program.
 var c19Bound map[string]bool
 
@@ -237,9 +241,7 @@ func c19Check(c *core.Case, cs *canaries, d hcl.Diagnostics, src []byte, filenam
 				return false
 			}
 			if c19Recheck != nil && c19Recheck() {
-				// (classed per message: which messages quote an operand is a finite list, and
-				// a message that starts doing so is a separate finding)
-				c.Violation("iteration-variable-over-marked-collection/"+where+"/"+sum, fmt.Sprintf("%s: the %s of diagnostic %q shows a secret taken from an iteration variable bound to a bare element of a marked collection (no leak when the elements carry the mark themselves):\n%s", what, where, sum, trunc(t, 700)), map[string]any{"canary": hit})
+				c.Violation("iteration-variable-over-marked-collection", fmt.Sprintf("%s: the %s of diagnostic %q shows a secret taken from an iteration variable bound to a bare element of a marked collection (no leak when the elements carry the mark themselves):\n%s", what, where, sum, trunc(t, 700)), map[string]any{"canary": hit})
 				return false
 			}
 			if c19RecheckKeys != nil && len(c19Bound) > 0 && c19RecheckKeys() {
@@ -248,6 +250,10 @@ func c19Check(c *core.Case, cs *canaries, d hcl.Diagnostics, src []byte, filenam
 				// marking the elements does not help); same root cause as above, classed
 				// per diagnostic so that other messages stay separate findings
 				c.Violation("iteration-key-variable-over-marked-map/"+sum, fmt.Sprintf("%s: the %s of diagnostic %q shows a key of a marked map that reached it through the key variable of an iteration (no leak when the map has other keys):\n%s", what, where, sum, trunc(t, 700)), map[string]any{"canary": hit})
+				return false
+			}
+			if c19RecheckIter != nil && c19RecheckIter() {
+				c.Violation("iteration-variable-over-marked-collection", fmt.Sprintf("%s: the %s of diagnostic %q shows a secret that reached it through an iteration variable (no leak when every reference to an iteration variable puts the mark back):\n%s", what, where, sum, trunc(t, 700)), map[string]any{"canary": hit})
 				return false
 			}
 			c.Violation("canary-in-"+where+"/"+sum+"/"+shape(), fmt.Sprintf("%s: a secret that occurs only inside a marked value appears in the %s of diagnostic %q:\n%s", what, where, sum, trunc(t, 700)), map[string]any{"canary": hit})
@@ -338,7 +344,59 @@ func c19Case(c *core.Case) {
 		}
 		return true
 	}
-	defer func() { c19Recheck, c19RecheckKeys = nil, nil }()
+	// third re-run: the same program with every reference to a name that a for
+	// expression or for directive binds wrapped in a function that puts the mark
+	// back (remark(v)). If the secret no longer shows, it reached the message
+	// through an iteration variable, whatever the collection was built from.
+	c19RecheckIter = func() bool {
+		if len(c19Bound) == 0 {
+			return false
+		}
+		re := gen.Rewrite(ast, func(n *gen.Node) *gen.Node {
+			if n.Kind == gen.KVar && c19Bound[n.Name] {
+				return &gen.Node{Kind: gen.KCall, Name: "remark", Kids: []*gen.Node{n}, Ty: n.Ty}
+			}
+			return n
+		})
+		src2 := gen.RenderExpr(re, &gen.Layout{})
+		text2 := src2
+		var eval2 func(*hcl.EvalContext) (cty.Value, hcl.Diagnostics)
+		if asJSON {
+			text2 = strings.ReplaceAll(text, string(gen.JSONQuote(nil, "${"+src+"}")), string(gen.JSONQuote(nil, "${"+src2+"}")))
+			je, pd := hcljson.ParseExpression([]byte(text2), filename)
+			if pd.HasErrors() {
+				return false
+			}
+			eval2 = je.Value
+		} else {
+			he, pd := hclsyntax.ParseExpression([]byte(text2), filename, hcl.InitialPos)
+			if pd.HasErrors() {
+				return false
+			}
+			eval2 = he.Value
+		}
+		ctx2 := evalCtx(sc)
+		fns := map[string]function.Function{}
+		for n, f := range ctx2.Functions {
+			fns[n] = f
+		}
+		fns["remark"] = function.New(&function.Spec{
+			Params: []function.Parameter{{Name: "v", Type: cty.DynamicPseudoType, AllowMarked: true, AllowNull: true, AllowUnknown: true, AllowDynamicType: true}},
+			Type:   func(a []cty.Value) (cty.Type, error) { return a[0].Type(), nil },
+			Impl:   func(a []cty.Value, r cty.Type) (cty.Value, error) { return a[0].Mark(c19Mark), nil },
+		})
+		ctx2.Functions = fns
+		_, dd := eval2(ctx2)
+		for _, t := range renderDiags(dd, []byte(text2), filename) {
+			// (the text writer still prints the bare value of the variable inside
+			// remark(v) in its "with v as" clause: that part is the known finding itself)
+			if cs.scan(t) != "" && !onlyIteratorLeaks(cs, t, c19Bound) {
+				return false
+			}
+		}
+		return true
+	}
+	defer func() { c19Recheck, c19RecheckKeys, c19RecheckIter = nil, nil, nil }()
 	ok := c19Check(c, cs, d, []byte(text), filename, "evaluating "+trunc(text, 200), func() string {
 		// shrink: smallest sub-expression whose own diagnostics still leak
 		small := gen.Shrink(ast, func(n *gen.Node) bool {
@@ -635,7 +693,9 @@ func markElementsToo(v cty.Value) cty.Value {
 		case ty.IsListType():
 			return cty.ListVal(elems).WithMarks(marks)
 		case ty.IsSetType():
-			return cty.SetVal(elems).WithMarks(marks)
+			// (a set cannot hold marked elements, cty moves their marks to the set; the
+			// same elements as a list can)
+			return cty.ListVal(elems).WithMarks(marks)
 		}
 		return cty.TupleVal(elems).WithMarks(marks)
 	case ty.IsMapType() || ty.IsObjectType():
